@@ -267,6 +267,20 @@ func runC07(r *Report) {
 		if fn == nil {
 			continue
 		}
+		// the whole completion step (expiry capping and commit) may be a helper only Update calls
+		var wholeHelper *ssa.Call
+		if len(CallSites(fn, "rueidis.(*RedisMessage).getExpireAt")) == 0 {
+			for _, cs := range Sites(fn, func(in ssa.Instruction) bool { _, ok := in.(*ssa.Call); return ok }) {
+				h := cs.Call().Common().StaticCallee()
+				if h != nil && h.Blocks != nil && h.Pkg == fn.Pkg && !isExportedName(h.Name()) && len(CallSites(h, "rueidis.(*RedisMessage).getExpireAt")) >= 2 && helperOnlyCalledFrom(p, h, map[string]bool{name: true}, 1) {
+					wholeHelper = cs.Instr.(*ssa.Call)
+				}
+			}
+		}
+		outer := fn
+		if wholeHelper != nil {
+			fn = wholeHelper.Call.StaticCallee()
+		}
 		var valParam *ssa.Parameter
 		for _, prm := range fn.Params {
 			if shortType(prm.Type()) == "rueidis.RedisMessage" {
@@ -433,6 +447,40 @@ func runC07(r *Report) {
 			if ret, ok := b.Instrs[len(b.Instrs)-1].(*ssa.Return); ok && len(ret.Results) == 1 {
 				if !leafOK(ret.Results[0], map[ssa.Value]bool{}) {
 					okRet = false
+				}
+			}
+		}
+		if wholeHelper != nil {
+			// Update itself returns the helper's answer or 0
+			var outerOK func(v ssa.Value, seen map[ssa.Value]bool) bool
+			outerOK = func(v ssa.Value, seen map[ssa.Value]bool) bool {
+				if seen[v] {
+					return true
+				}
+				seen[v] = true
+				if k, isc := ConstInt(v); isc && k == 0 {
+					return true
+				}
+				if v == ssa.Value(wholeHelper) {
+					return true
+				}
+				if ph, isphi := v.(*ssa.Phi); isphi {
+					for _, e := range ph.Edges {
+						if !outerOK(e, seen) {
+							return false
+						}
+					}
+					return true
+				}
+				return false
+			}
+			for _, b := range outer.Blocks {
+				if ret, ok := b.Instrs[len(b.Instrs)-1].(*ssa.Return); ok && b.Comment != "recover" {
+					for _, rv := range RetVals(ret) {
+						if !outerOK(rv, map[ssa.Value]bool{}) {
+							okRet = false
+						}
+					}
 				}
 			}
 		}
